@@ -25,6 +25,11 @@ checks["C05"]=dict(
    note="Trusted: go/types; the effects engine resolves visitor callbacks through the composite literal that builds the Visitor; the list of reference-bearing positions (Ref, ConstantReference, DiscriminatorMapping, EntryPoint) is frozen in c05.go. Does not decide that the rewritten name is right, nor composition of passes.",
    technique="IR-structure vs traversal coverage diff (go/types) + interprocedural write-set analysis of passes + AST control-dependence rules",
    design="§3.C05")
+checks["C03"]=dict(
+   text="Exhaustive classification of every range-over-map in cog's pipeline packages by an interprocedural effect analysis: each site must match an order-insensitive idiom (keyed write, collect-then-sort with a total comparator, commutative update, keyed early exit, path-keyed file emission with per-iteration helper state); functions returning map-ordered slices pass the obligation to callers; plus a scan asserting that no other scheduling freedom (goroutines, clock, randomness, environment, reflective map iteration) exists in the pipeline. A necessary and, under the stated trusted base, sufficient structural condition for run-to-run determinism of cog's own code.",
+   note="Trusted: determinism of third-party libraries and of the standard library's sorted map printing/encoding; codejen's path-keyed FS. Five emission loops sit in a reasoned exemption table (their structural part is still verified; allowed callee-written state is frozen per site). Key derivation through a conversion call is assumed injective.",
+   technique="type-resolved map-range enumeration + interprocedural write-set (effects) analysis with idiom classification; forbidden-API scan",
+   design="§3.C03")
 pending = {}
 props = [json.loads(l) for l in open(os.path.join(here, "properties.jsonl"))]
 m = {
